@@ -518,7 +518,7 @@ std::vector<Plan> plans_for(const Cfg& c, const Dry& d, bool thorough) {
     // with fsync; the rest is strided
     const bool every = g_force_every || (thorough && (c.hist == 'A' || c.hist == 'B'));
     const bool every_rlimit = every || (thorough && c.hist == 'L' && !c.paced && c.fsync) || (!thorough && c.hist == 'A' && !c.paced && c.fsync);
-    const long stride = c.hist == 'H' ? (thorough ? 997 : 9973) : c.hist == 'L' ? (thorough ? 13 : 127) : 7;
+    const long stride = c.hist == 'H' ? (thorough ? 997 : 9973) : c.hist == 'L' ? (thorough ? 13 : 251) : 7;
     const std::vector<long> offs = offsets(d.size, every, stride);
     for (long o : offsets(d.size, every_rlimit, stride)) add("rlimit", o, EFBIG);
     const bool offset_sim = thorough || c.hist != 'H';      // quick, history H: kernel faults and call indices only
@@ -558,10 +558,10 @@ std::vector<Group> groups(bool T) {
     product(std::string("history B (512 byte internal buffer, operator()(Item) flushes by itself), paced producer: ") + (T ? "every byte offset" : "offsets strided by 7 + buffer boundaries"), 'B', 2, 2, 1);
     {
         Group gr; gr.name = std::string("history H (650 KB of XML: BZ2_bzWrite and gzwrite themselves write to the file): offsets strided by ") + (T ? "997" : "9973 (RLIMIT_FSIZE only)") + " + all multiples of 4096/5000/8192 +-1, every call index";
-        for (const char* cm : {"bz2", "gz"}) for (int fs = 0; fs < 2; ++fs) gr.cfgs.push_back(Cfg{"osm", cm, fs, 'H', 20, 2, 0});
+        for (const char* cm : {"bz2", "gz"}) for (int fs = T ? 0 : 1; fs < 2; ++fs) gr.cfgs.push_back(Cfg{"osm", cm, fs, 'H', 20, 2, 0});     // quick: with fsync only
         g.push_back(gr);
     }
-    product(std::string("history L (output larger than the zlib/stdio buffers): ") + (T ? "every byte offset through RLIMIT_FSIZE with fsync, other offset plans strided by 13 + buffer boundaries" : "offsets strided by 127 + buffer boundaries"), 'L', 3, 2, 0);
+    product(std::string("history L (output larger than the zlib/stdio buffers): ") + (T ? "every byte offset through RLIMIT_FSIZE with fsync, other offset plans strided by 13 + buffer boundaries" : "offsets strided by 251 + buffer boundaries"), 'L', 3, 2, 0);
     if (T) product("history L, paced producer: offsets strided by 13 + buffer boundaries", 'L', 20, 1, 1);
     return g;
 }
